@@ -114,6 +114,20 @@ func (u *Unit) Oblige(kind, detail, pos, desc string, guard, goal Term, tags []s
 
 func (u *Unit) Query(o *Obligation) string { return u.QueryVariant(o, 0) }
 
+// CandidateQuery drops every quantified hypothesis: a satisfying assignment of it is only a candidate
+// counterexample (never a verdict) that the replay on the real code confirms or discards.
+func (u *Unit) CandidateQuery(o *Obligation) string {
+	var b strings.Builder
+	full := u.QueryVariant(o, 0)
+	for _, ln := range strings.Split(full, "\n") {
+		if strings.HasPrefix(ln, "(assert ") && strings.Contains(ln, "(forall ") && !strings.HasPrefix(ln, "(assert (not ") {
+			continue
+		}
+		b.WriteString(ln + "\n")
+	}
+	return b.String()
+}
+
 // QueryVariant 0 = all hypotheses; 1 = quantified loop-invariant hypotheses are kept only if they
 // belong to the clause the obligation is about (its KeepTag).
 func (u *Unit) QueryVariant(o *Obligation, variant int) string {
